@@ -143,3 +143,74 @@ def relay_main(rtype, curve, settings=None):
         sys.exit(1)
     print("not reproduced")
     sys.exit(0)
+
+
+def devices_more():
+    """printing a fuse; relay settings entered by hand (I>> stage, tables ordered differently from the switches)"""
+    import pandas as pd
+    from pandapower.shortcircuit import calc_sc
+    from pandapower.protection.protection_devices.fuse import Fuse
+    from pandapower.protection.protection_devices.ocrelay import OCRelay
+    from pandapower.protection.run_protection import calculate_protection_times
+    fails = []
+
+    # (1) str(fuse) must not change the device: same fault before and after printing
+    def lv():
+        net = pp.create_empty_network()
+        b = pp.create_buses(net, 4, 0.4)
+        pp.create_ext_grid(net, b[0], s_sc_max_mva=10., rx_max=0.1)
+        for i in range(3):
+            pp.create_line(net, b[i], b[i + 1], 0.1, "NAYY 4x150 SE")
+        net.line["endtemp_degree"] = 250
+        sw = [pp.create_switch(net, b[i], i, et="l") for i in range(3)]
+        pp.create_load(net, b[3], 0.05)
+        return net, b, sw
+    net, b, sw = lv()
+    f0 = Fuse(net, sw[0], fuse_type="Siemens NH-2-630"); Fuse(net, sw[1], fuse_type="Siemens NH-2-315"); Fuse(net, sw[2], fuse_type="Siemens NH-1-100")
+    calc_sc(net, bus=b[3], branch_results=True)
+    before = f0.protection_function(net, scenario="sc")
+    str(f0)
+    after = f0.protection_function(net, scenario="sc")
+    if not np.isclose(float(before["trip_melt_time_s"]), float(after["trip_melt_time_s"])):
+        fails.append(f"fuse NH-2-630 at {before['activation_parameter_value']:.4f} kA: melting time {float(before['trip_melt_time_s']):.4f} s, after "
+                     f"str(fuse) {float(after['trip_melt_time_s']):.4f} s for the same current")
+
+    def mv(cb):
+        net = pp.create_empty_network()
+        pp.create_buses(net, 4, 20, geodata=[(0, 0), (0, -1), (0, -2), (0, -3)])
+        pp.create_ext_grid(net, 0, s_sc_max_mva=100, s_sc_min_mva=50, rx_max=0.1, rx_min=0.1)
+        pp.create_lines(net, [0, 1, 2], [1, 2, 3], length_km=[2, 5, 4], std_type="NAYY 4x50 SE")
+        net.line["endtemp_degree"] = 250
+        pp.create_switches(net, buses=[0, 1, 2], elements=[0, 1, 2], et="l", type=cb)
+        pp.create_load(net, 3, 2, 1)
+        return net
+    # (2) the high-set stage picks up at the entered I>>, not at I>
+    for kind in ("DTOC", "IDTOC"):
+        net = mv("CB_DTOC")
+        I_gg, I_g, I_s, t_gg, t_g = 2.0, 0.3, 0.25, 0.05, 1.0
+        pick = pd.DataFrame({"switch_id": [0, 1, 2], "I_gg": [I_gg] * 3, "I_g": [I_g] * 3, "I_s": [I_s] * 3})
+        relay = OCRelay(net, 1, kind, time_settings=[t_gg, t_g, 0.] if kind == "DTOC" else [t_gg, t_g, 0., 1., 0.], pickup_current_manual=pick)
+        calc_sc(net, bus=3, branch_results=True)
+        res = relay.protection_function(net, scenario="sc")
+        i_ka, t = res["activation_parameter_value"], res["trip_melt_time_s"]
+        if I_g < i_ka < I_gg and not np.isclose(t, relay.t_g):
+            fails.append(f"{kind} relay with I>> = {I_gg} kA (t>> = {t_gg} s) and I> = {I_g} kA (t> = {t_g} s): {i_ka:.3f} kA (below I>>) trips after {t} s")
+    # (3) manual tables carry a switch_id column: every relay uses the row of its own switch
+    net = mv("CB_IDMT")
+    I_s, tms, t_grade, order = {2: 0.2, 1: 0.5, 0: 3.0}, {2: 0.1, 1: 0.2, 0: 0.3}, {2: 0.0, 1: 0.4, 0: 0.8}, [2, 1, 0]
+    pick = pd.DataFrame({"switch_id": order, "I_s": [I_s[s] for s in order]})
+    ts = pd.DataFrame({"switch_id": order, "tms": [tms[s] for s in order], "t_grade": [t_grade[s] for s in order]})
+    for s in (0, 1, 2):
+        OCRelay(net, s, "IDMT", time_settings=ts, pickup_current_manual=pick)
+    calc_sc(net, bus=3, branch_results=True)
+    res = calculate_protection_times(net, scenario="sc").set_index("switch_id")
+    for s in (0, 1, 2):
+        i_ka, trip = res.at[s, "activation_parameter_value"], bool(res.at[s, "trip_melt"])
+        if trip != (i_ka > I_s[s]):
+            fails.append(f"IDMT relay on switch {s} with the pick-up value I_s = {I_s[s]} kA entered for that switch (tables ordered 2, 1, 0): "
+                         f"{i_ka:.3f} kA -> trip = {trip}")
+    for f in fails:
+        print("REPRODUCED:", f)
+    if not fails:
+        print("not reproduced: printing does not change a fuse; relays use the settings entered for their own switch")
+    sys.exit(1 if fails else 0)
